@@ -8,10 +8,13 @@
   state is observationally equivalent (same pause sets, same limit, same statistics at every key) and
   again satisfies the invariant; equivalent states are enforced identically on the receive path; any
   genesis accepted by validation initialises.
-  Not proved (checked by the correspondence stream `reimport` only): that the re-export is *textually*
-  the same genesis, which additionally needs the stored lists to be sorted in key-encoding order.
+  The stored lists are moreover sorted in the byte order of their key encodings in every reachable state
+  (`OrbState.Srt`, Lemmas/Sorted.lean; the encodings are injective on valid keys and the byte order is a strict
+  total order), so the round trip is exact: import of the export returns the very same store and therefore
+  re-exports to the same genesis (`c17_roundtrip_exact`).
 -/
 import Orbiter.Lemmas.Reach
+import Orbiter.Lemmas.Sorted
 namespace Orbiter.C17
 open Orbiter
 
@@ -37,6 +40,33 @@ theorem c17_roundtrip_after_history (wr : Wiring) (w : World) (ops : List Op) (h
     validateGenesis (exportGenesis (run wr w ops).orb) = .ok () ∧
     ∃ o', initGenesis (exportGenesis (run wr w ops).orb) = .ok o' ∧ o'.Inv ∧ o'.Equiv (run wr w ops).orb :=
   ⟨validate_export _ (run_inv wr w ops hi), reimport_equiv _ (run_inv wr w ops hi)⟩
+
+
+/-! ### the exact round trip -/
+
+theorem run_good (wr : Wiring) (w : World) (ops : List Op) (hg : w.orb.Good) : (run wr w ops).orb.Good := by
+  unfold run
+  induction ops generalizing w with
+  | nil => exact hg
+  | cons op rest ih => exact ih _ (step_good wr noFaults w op hg)
+
+theorem c17_good_initially : OrbState.Good {} := ⟨OrbState.Inv_empty, OrbState.Srt_empty⟩
+
+/-- **Exact round trip after any history.** In every state reachable from a good state (the empty store is
+one), once the parameters have been set (any store initialised from a genesis): the exported genesis
+validates, initialises a fresh store to *the very same store*, which therefore re-exports to the same
+genesis and behaves identically; the in-place round trip reports valid/initialised/same. -/
+theorem c17_roundtrip_exact (wr : Wiring) (w : World) (ops : List Op) (hg : w.orb.Good)
+    (hp : (run wr w ops).orb.params.isSome = true) :
+    validateGenesis (exportGenesis (run wr w ops).orb) = .ok () ∧
+    initGenesis (exportGenesis (run wr w ops).orb) = .ok (run wr w ops).orb ∧
+    (reimportStep (run wr w ops).orb).2 = (run wr w ops).orb := by
+  have hgood := run_good wr w ops hg
+  exact ⟨validate_export _ hgood.1, reimport_exact _ hgood hp, (reimportStep_exact _ hgood hp).1⟩
+
+/-- Every genesis-initialised store has its parameters set. -/
+theorem c17_params_set_by_genesis (g : Genesis) (o : OrbState) (h : initGenesis g = .ok o) : o.params.isSome = true := by
+  rw [(initGenesis_pause g o h).2.2.2.2]; rfl
 
 /-! ### statistics across export/import: the C12 history theorem without its restriction -/
 
